@@ -25,22 +25,25 @@ FLOORS = {"R01.1": 12, "R01.2": 6, "R01.5": 12}
 NONCE_SPEC = {"v1": 32, "v2": 24, "v3": 32, "v3-aws-lc": 32, "v4": 32, "v4-sodium": 32}
 
 def classify_err(run, r):
-    """Class of an Err exit from the origin of its cause."""
-    t = r.ret
-    n = run.norm.n(t)
-    s = repr(n)
+    """Class of an Err exit from the origin of its cause (the fallible term assumed Err on this path)."""
+    cause = r.path.err_cause
     guards = r.path.guards
     last = guards[-1] if guards else None
-    # direct Err aggregate guarded by an is_empty(aad) test
     if last is not None:
         c = run.norm.n(last["cond"])
         cs = repr(c)
-        if "is_empty" in cs and "'aad'" in cs:
+        if "is_empty" in cs and "'aad'" in cs and not (isinstance(last["cond"], tuple) and last["cond"][0] == "discr"):
             return "aad-unsupported", cs
-    if "RNG" in s and ("errv" in s):
+    if cause is None:
+        return None, "no fallible cause recorded"
+    n = run.norm.n(cause)
+    s = repr(n)
+    if isinstance(cause, tuple) and cause[0] == "rng":
         return "rng-failure", s[:200]
-    if "Payload>::encode" in s or "Footer>::encode" in s:
-        return "encode-error", s[:200]
+    if isinstance(n, tuple) and n and n[0] == "RNG":
+        return "rng-failure", s[:200]
+    if isinstance(cause, tuple) and cause[0] == "fallible" and ("Payload>::encode" in cause[2] or "Footer>::encode" in cause[2]):
+        return "encode-error", cause[2]
     return None, s[:400]
 
 def run(ctx):
@@ -123,12 +126,13 @@ def classify_generic(run, r):
     n = run.norm.n(r.ret)
     s = repr(n)
     # cause = innermost errv root
-    t = r.ret
-    root = t
-    while isinstance(root, tuple) and root and root[0] in ("from_residual", "errv", "branch"):
-        root = root[1]
-    from interp import peel
-    root = peel(root)
+    root = r.path.err_cause
+    if root is None:
+        g = r.path.guards[-1] if r.path.guards else None
+        gc = repr(run.norm.n(g["cond"]))[:300] if g else "?"
+        if "params" in gc or "is_multiple_of" in gc:
+            return "param-validation", gc
+        return "value-dependent", "explicit Err under guard " + gc
     if isinstance(root, tuple) and root:
         if root[0] == "split":
             # a split of a buffer: impossible iff the buffer's static width covers the request
